@@ -31,6 +31,19 @@ Theorem C06_parse_complete :
 Proof. exact parse_complete. Qed.
 Print Assumptions C06_parse_complete.
 
+(** Contexts that restrict an argument to a SIMPLE expression ([line-num IM], [filter LM],
+    [-selection FM FSM], ...): the simple parser reads the argument and stops, WHATEVER follows — in
+    [CTX ARG op REST] the operator and REST are left to the outer parser, so the structure is
+    [( CTX ARG ) op REST]. *)
+Theorem C06_simple_argument_ends_before_operator :
+  forall (g : grammar) (ops : list N) (strict : bool),
+    wfg g ops ->
+    forall (d : dexpr) (post : list tok),
+      rendering_ok g true false d = true ->
+      exists e, parse_simple g strict false (render d ++ post) = Ok e post /\ flatten e = flatten (erase d).
+Proof. exact simple_argument_ends. Qed.
+Print Assumptions C06_simple_argument_ends_before_operator.
+
 (** Everything the parser accepts is a rendering: the consumed tokens are [render d] of a
     well-formed decorated tree [d] whose tree is, modulo [flatten], the structure that was built.
     Hence a malformed expression (one that is no rendering of any tree: unbalanced parentheses,
@@ -177,6 +190,18 @@ Proof.
   split; [vm_compute; repeat constructor|]. apply forallb_forall. vm_compute. reflexivity.
 Qed.
 Print Assumptions C06_Gen_operator_truth.
+
+(** (T) every context of the running program that takes a simple expression as an argument (probed
+    through the real parsers with [CTX a op b]) ends the argument before the operator. *)
+Theorem C06_Gen_simple_contexts :
+  (30 <= length gen_simple_contexts)%nat /\
+  forall row, In row gen_simple_contexts -> snd row = true.
+Proof.
+  split; [vm_compute; repeat constructor|].
+  assert (H : forallb (fun row : nat * N * bool => snd row) gen_simple_contexts = true) by (vm_compute; reflexivity).
+  intros row Hin. exact (proj1 (forallb_forall _ _) H row Hin).
+Qed.
+Print Assumptions C06_Gen_simple_contexts.
 
 (** ** Non-vacuity *)
 Example C06_example_layout :
